@@ -354,8 +354,15 @@ func c03Srv(raw json.RawMessage, res map[string]any) {
 
 func TestVerifC03(t *testing.T) {
 	c03Main(t, func(kind string, raw json.RawMessage, res map[string]any) bool {
-		if kind == "srv" {
+		switch kind {
+		case "srv":
 			c03Srv(raw, res)
+			return true
+		case "dgsrv":
+			c03DgSrv(raw, res)
+			return true
+		case "dgcli":
+			c03DgCli(raw, res)
 			return true
 		}
 		return false
